@@ -44,12 +44,14 @@ PayOk(p) == p.sigs /\ p.self /\ p.close /\ p.fresh /\ p.chain /\ p.addr
 \* Is the delivery entitled to create / update content at its address, leaving the content's own
 \* validity aside?  (C03: new data from a client only with a fully valid payment; unpaid uploads only
 \* as updates of mutable records already held; replication needs no payment.)
+\* d.heldIdx: the node's index lists the address (the node's own notion of "already holds", I9); it can
+\* lag behind `before` while an accepted write has not been acknowledged yet.
 Entitled(d, before) ==
     CASE d.path = "repl" -> d.kind \in UnpaidKinds
       [] d.path = "client" /\ d.kind \in PaidKinds ->
             \* a record already held may be updated by an upload whose payment fails, for the mutable kinds
-            PayOk(d.pay) \/ (Held(before) /\ Base(d.kind) \in {"txs", "reg"})
-      [] d.path = "client" /\ d.kind \in {"Scratchpad", "Register"} -> Held(before)
+            PayOk(d.pay) \/ (d.heldIdx /\ Base(d.kind) \in {"txs", "reg"})
+      [] d.path = "client" /\ d.kind \in {"Scratchpad", "Register"} -> d.heldIdx
       [] OTHER -> FALSE
 
 GoodTxs(d) == {t.id : t \in {x \in d.txs : x.ok}}
@@ -137,7 +139,7 @@ C07_OnlyValid(x) ==
     /\ (x.afterD.kind = "reg" => x.afterD.ops \subseteq ((IF x.beforeD.kind = "reg" THEN x.beforeD.ops ELSE {}) \cup GoodOps(x.d)))
 
 \* replicated (unpaid) deliveries used by the concurrent model
-D0base == [path |-> "repl", kind |-> "Scratchpad", keyOk |-> TRUE, pay |-> "none", parse |-> "ok",
+D0base == [path |-> "repl", kind |-> "Scratchpad", keyOk |-> TRUE, heldIdx |-> TRUE, pay |-> "none", parse |-> "ok",
            pad |-> [c |-> 1, sig |-> "ok", content |-> 10], txs |-> {}, ops |-> {}]
 D0pad == D0base
 D0txs == [D0base EXCEPT !.kind = "Transaction"]
